@@ -9,7 +9,7 @@ From Coq Require Import ZArith List Bool Lia.
 From PyRTL Require Import Front.Ops Front.Signed Front.Barrel.
 From PyRTL Require Import Front.PySliceProofs Front.OpsProofs Front.SignedProofs Front.BarrelProofs
                           Front.KindsProofs.
-From PyRTL Require Import Gen.C06Src Front.SrcTie.
+From PyRTL Require Import Gen.C06Src Front.SrcTie Front.HelpersTie.
 Open Scope Z_scope.
 
 (* ------------------------------------------------------------------ translator tie *)
@@ -327,6 +327,86 @@ Theorem C06_const_vstr : forall bw num, 1 <= bw -> 0 <= num < 2 ^ bw ->
   as_wires (OVStr false bw num) None = Some (num, bw).
 Proof. exact KindsProofs.const_vstr. Qed.
 Print Assumptions C06_const_vstr.
+
+(* ------------------------------------------------------------------ regenerated helper bodies *)
+(* Gen/C06Helpers.v (module G) is regenerated from /repo on every run: the BODIES of
+   corecircuits.signed_add/signed_mult/signed_lt/le/gt/ge, of the four shift_* (wire-amount and
+   int-amount paths) and of one iteration of the stage loop of rtllib/barrel.py barrel_shifter,
+   translated statement by statement into compositions of the operator models above
+   (w = WireVector parameter, i = Python int parameter).  The theorems below are ABOUT THOSE
+   REGENERATED BODIES: a change to a helper's source changes G and these are re-checked. *)
+Theorem C06_src_signed_add_exact : forall a b, wf a -> wf b ->
+  wd (G.signed_add_ww a b) = Z.max (wd a) (wd b) + 1 /\
+  sval (G.signed_add_ww a b) = sval a + sval b.
+Proof. exact HelpersTie.src_signed_add_exact. Qed.
+Print Assumptions C06_src_signed_add_exact.
+
+Theorem C06_src_signed_mult_exact : forall a b, wf a -> wf b ->
+  wd (G.signed_mult_ww a b) = wd a + wd b /\ sval (G.signed_mult_ww a b) = sval a * sval b.
+Proof. exact HelpersTie.src_signed_mult_exact. Qed.
+Print Assumptions C06_src_signed_mult_exact.
+
+Theorem C06_src_signed_comparisons : forall a b, wf a -> wf b ->
+  G.signed_lt_ww a b = (b2z (sval a <? sval b), 1) /\ G.signed_le_ww a b = (b2z (sval a <=? sval b), 1) /\
+  G.signed_gt_ww a b = (b2z (sval a >? sval b), 1) /\ G.signed_ge_ww a b = (b2z (sval a >=? sval b), 1).
+Proof. exact HelpersTie.src_signed_comparisons. Qed.
+Print Assumptions C06_src_signed_comparisons.
+
+(* a Python int operand of signed_add / signed_mult (either side) counts with its own value *)
+Theorem C06_src_signed_int_exact : forall a v, wf a ->
+  sval (G.signed_add_wi a v) = sval a + v /\ sval (G.signed_add_iw v a) = v + sval a /\
+  sval (G.signed_mult_wi a v) = sval a * v /\ sval (G.signed_mult_iw v a) = v * sval a.
+Proof. exact HelpersTie.src_signed_int_exact. Qed.
+Print Assumptions C06_src_signed_int_exact.
+
+(* the barrel shifter folded over the REGENERATED stage *)
+Theorem C06_src_barrel_full_shift : forall x fw f dir dist, 1 <= fw -> inrange x fw -> wf dist ->
+  barrel_shifter_src (x, fw) (b2z f, 1) dir dist =
+  (if negb (val dir =? 0) then shl_fill x fw f (val dist) else shr_fill x fw f (val dist), fw).
+Proof. exact HelpersTie.src_barrel_full_shift. Qed.
+Print Assumptions C06_src_barrel_full_shift.
+
+Theorem C06_src_barrel_stage_is_model : forall fw dir dist st i,
+  G.barrel_stage fw dir dist st i = Barrel.barrel_stage fw dir dist st i.
+Proof. exact HelpersTie.barrel_stage_src. Qed.
+Print Assumptions C06_src_barrel_stage_is_model.
+
+Theorem C06_src_shift_wire : forall bits amt, wf bits -> wf amt ->
+  G.shift_left_logical_ww bits amt = ((val bits * 2 ^ val amt) mod 2 ^ wd bits, wd bits) /\
+  G.shift_left_arithmetic_ww bits amt = ((val bits * 2 ^ val amt) mod 2 ^ wd bits, wd bits) /\
+  G.shift_right_logical_ww bits amt = (val bits / 2 ^ val amt, wd bits) /\
+  (wd (G.shift_right_arithmetic_ww bits amt) = wd bits /\
+   sval (G.shift_right_arithmetic_ww bits amt) = sval bits / 2 ^ val amt).
+Proof. exact HelpersTie.src_shift_wire. Qed.
+Print Assumptions C06_src_shift_wire.
+
+Theorem C06_src_shift_int : forall bits k, wf bits -> 1 <= k <= wd bits - 1 ->
+  G.shift_left_logical_wi bits k = ((val bits * 2 ^ k) mod 2 ^ wd bits, wd bits) /\
+  G.shift_left_arithmetic_wi bits k = ((val bits * 2 ^ k) mod 2 ^ wd bits, wd bits) /\
+  G.shift_right_logical_wi bits k = (val bits / 2 ^ k, wd bits) /\
+  G.shift_right_arithmetic_wi bits k
+    = (shr_fill (val bits) (wd bits) (Z.testbit (val bits) (wd bits - 1)) k, wd bits).
+Proof. exact HelpersTie.src_shift_int. Qed.
+Print Assumptions C06_src_shift_int.
+
+(* the hand-written definitions evaluated by the harness (Front/Signed.v, Front/Barrel.v) ARE the
+   regenerated bodies *)
+Theorem C06_src_bodies_are_model : forall a b, wf a -> wf b ->
+  G.signed_add_ww a b = signed_add a b /\ G.signed_mult_ww a b = signed_mult a b /\
+  G.signed_lt_ww a b = signed_lt a b /\ G.signed_le_ww a b = signed_le a b /\
+  G.signed_gt_ww a b = signed_gt a b /\ G.signed_ge_ww a b = signed_ge a b /\
+  G.shift_left_logical_ww a b = shift_left_logical a b /\
+  G.shift_left_arithmetic_ww a b = shift_left_arithmetic a b /\
+  G.shift_right_logical_ww a b = shift_right_logical a b /\
+  G.shift_right_arithmetic_ww a b = shift_right_arithmetic a b.
+Proof. exact HelpersTie.src_bodies_are_model. Qed.
+Print Assumptions C06_src_bodies_are_model.
+
+Example C06_example_src :
+  G.signed_add_ww (5, 3) (20, 5) = (49, 6) /\ G.signed_lt_ww (5, 3) (20, 5) = (0, 1) /\
+  G.signed_add_wi (5, 3) (-3) = (10, 4) /\ G.shift_right_arithmetic_wi (9, 4) 2 = (14, 4) /\
+  barrel_shifter_src (5, 4) (1, 1) (1, 1) (9, 7) = (15, 4).
+Proof. vm_compute. repeat split; reflexivity. Qed.
 
 (* ------------------------------------------------------------------ non-vacuity *)
 Example C06_example_wf : wf (5, 3) /\ wf (20, 5) /\ wf (0, 1) /\ wf (2 ^ 130 - 1, 130).
